@@ -783,7 +783,8 @@ class Analysis:
             need_hi = ptr.off.hi + width
         if size is None and region[0] not in ("null", "fn"):
             key = (inst.id, kind)
-            self.obligations[key] = Obligation(inst, kind, region, ptr.off, width, None, None, self.region_desc(region))
+            ok_ = None
+            self.obligations[key] = Obligation(inst, kind, region, ptr.off, width, None, ok_, self.region_desc(region))
             return
         if region[0] in ("null", "fn"):
             return
